@@ -16,7 +16,7 @@ from .arrays import (Arr, Series, Table, Mat, Space, MultiArr, elementwise, any_
 
 
 def _arr(x):
-    return x.arr() if isinstance(x, Series) else x
+    return x.arr() if isinstance(x, Series) or type(x).__name__ == "IndexVal" else x
 
 
 def _ew(fn):
@@ -297,6 +297,12 @@ def make_numpy(it):
             return Opaque(f"np.all({x.why})")
         if isinstance(x, (Arr, Series)):
             return all_(it, _arr(x))
+        if isinstance(x, (list, tuple)) and x and all(isinstance(e, (Arr, Series)) for e in x):
+            acc = True
+            for e in x:
+                r = all_(it, _arr(e))
+                acc = r if acc is True else logic("&", acc, r)
+            return acc
         return it.call(it.builtins["all"], [x if not is_scalar(x) else [x]], {})
 
     def np_isin(it, x, test, **k):
@@ -622,7 +628,7 @@ def arr_attr(it, a, name):
     if name == "T":
         return a
     if name == "fillna":
-        return nat(lambda it, v, **k: a.like(s_nan_to_num(it, a.e, v)))
+        return nat(lambda it, v, **k: elementwise(it, lambda x, y: s_nan_to_num(it, x, y), a, v))
     if name == "isin":
         return nat(lambda it, test: isin(it, a, test))
     if name in ("isnull", "isna"):
@@ -825,6 +831,9 @@ class IndexVal:
     def sym_len(self, it):
         return SV(self.table.space.n)
 
+    def sym_set(self, it):
+        return Opaque("set(index)")
+
     def sym_binop(self, it, op, a, b):
         return elementwise(it, lambda x, y: it.binop(op, x, y), a.arr() if isinstance(a, IndexVal) else a,
                            b.arr() if isinstance(b, IndexVal) else b)
@@ -880,8 +889,15 @@ def mat_attr(it, m, name):
     return NotImplemented
 
 
+def pyscalar_attr(it, x, name):
+    if name == "astype":
+        return Native(lambda it, t=None, **k: it.builtins["__astype__"](it, x, t), name="astype")
+    return NotImplemented
+
+
 def install(it):
     tabletheory.install(it)
+    it.attr_hooks.append(((bool, int, float), pyscalar_attr))
     it.attr_hooks.append((Mat, mat_attr))
     it.attr_hooks.append((Rows, rows_attr))
     it.attr_hooks.append((Cols, cols_attr))
@@ -897,7 +913,7 @@ def install(it):
         "isnull": Native(_ew(s_isnan), name="isnull"), "isna": Native(_ew(s_isnan), name="isna"),
         "notnull": Native(_ew(lambda it, x: s_logical_not(it, s_isnan(it, x))), name="notnull"),
         "notna": Native(_ew(lambda it, x: s_logical_not(it, s_isnan(it, x))), name="notna"),
-        "Series": TypeTag("Series", None), "DataFrame": tabletheory.DataFrameCtor(), "Index": TypeTag("Index", None),
+        "Series": tabletheory.SeriesCtor(), "DataFrame": tabletheory.DataFrameCtor(), "Index": TypeTag("Index", None),
     }, default=lambda attr: Opaque(f"pd.{attr}"))
     it.stub_modules["pandas"] = pd_ns
     return np_ns
